@@ -5,7 +5,7 @@ From Coq Require Import ExtrOcamlBasic List NArith ZArith String.
 Require Import Lib.GoStr Ssz.Sha256 Ssz.Ssz Ssz.Rotation.
 Require Import Fsm.EngineDefs Fsm.Types Fsm.Engine Fsm.Actions Fsm.Provider.
 Require Import Node.Types Node.Process.
-Require Import Board.File Board.Raw Node.Serial Crypto.Zr Air.Machine Node.ReinitHash Air.Terms Air.Lock Crypto.DealCheck Air.Reject Air.Reinit.
+Require Import Board.File Board.Raw Node.ResetPoll Node.Serial Crypto.Zr Air.Machine Node.ReinitHash Air.Terms Air.Lock Crypto.DealCheck Air.Reject Air.Reinit.
 Require Gen.Skeletons.
 Extraction Language OCaml.
 Set Extraction Optimize.
@@ -19,5 +19,5 @@ Extraction "model.ml"
   accepts round_outcome aclass_of handle_reinit fresh_rmach
   result_of result_line coeffs_coincide group_coincides shares_coincide tick_waits_during_command gap_saves_without_password
   lagrange0_z share_z group_secret_z eval_poly
-  pending_after a_labels b_labels in_lost_window
+  pending_after a_labels b_labels in_lost_window reset_after replayed_all
   send_seq get_messages get_messages_raw Gen.Skeletons.count_limit Gen.Skeletons.read_limit.
